@@ -163,6 +163,7 @@ def gen_plan(seed, tier):
   r = Rng(seed)
   cfg = {"nsrc": r.pick([1, 1, 2]), "nsink": r.randint(1, 3),
          "maxdepth": r.pick([2, 3]), "lazy_init": r.chance(0.3),
+         "boom_base": r.chance(0.33),
          # flat: no priorities at all in this run (handler lists are then
          # never re-sorted, so plain append-during-delivery is exercised)
          "flat": r.chance(0.3)}
@@ -224,8 +225,16 @@ class _Abort(BaseException):
   """non-terminating delivery: leave the real dispatch loop"""
 
 
-class Boom(Exception):
+class BoomE(Exception):
   """the exception a scripted handler raises"""
+
+
+class BoomB(BaseException):
+  """... or, in a third of the runs, one outside the Exception hierarchy
+  (what sys.exit() or a generator close inside a handler would raise)"""
+
+
+Boom = BoomE        # rebound per run (see run_plan)
 
 
 class Sub(object):
@@ -1053,7 +1062,10 @@ class World(object):
 def run_plan(plan):
   gc.disable()
   known = load_known(PROP)
+  globals()["Boom"] = BoomB if plan["cfg"].get("boom_base") else BoomE
   w = World(plan, known)
+  if plan["cfg"].get("boom_base"):
+    w.stats["boom_is_baseexception"] = 1
   try:
     w.run()
   except (_Stop, _Abort):
